@@ -439,7 +439,9 @@ func RunSequence(id string, s *Scenario, r *rng.R, nb int, emit func(Line)) {
 		// truth of the environment
 		failKind := ""
 		if ct != "n" {
-			fullApply := ct == "c" || !plus
+			// a full apply (files + reload) was attempted iff ReplaceFiles was called — what the stubs experienced, not what the
+			// model expects (since /repo c94173a also a Plus endpoints-only batch after a remembered failure is a full apply)
+			fullApply := fm.called
 			failedNow := (fm.called && !fm.ok) || rt.reloadErr || rt.apiErr
 			if fullApply {
 				stale = (fm.called && !fm.ok) || rt.reloadErr
